@@ -23,3 +23,8 @@ CLAIMS["C12"] = (
     "Generated maps (noise, impulses, plane waves; non-cubic, odd/even) are filtered and the DFT of the output is compared with the exact radial step gain (hard edge) or with the stated bands, range and ray-wise monotonicity (soft edge); thorough adds every integer frequency of an 8x9x10 box. Held on everything explored.",
     "Trusts numpy.fft as the DFT and the harness' integer frequency grid; soft-edge band tolerance 1.5e-3 derived from the truncated Gaussian kernel.",
 )
+CLAIMS["C13"] = (
+    "property-based test against exact integer/rational membership oracles + voxel-wise Boolean algebra oracle",
+    "Generated boxes, centres, radii/heights (to beyond the box), shells, shape names and mask lists of mixed dtypes; hard masks are compared voxel by voxel with analytic inequalities evaluated in exact arithmetic, soft masks with range/core bounds, set operations with numpy Boolean algebra and input-immutability. Held on everything explored.",
+    "Integer/half-integer radii (no floating-point ties); ellipsoid voxels within 1e-12 of the boundary (other than on-axis ones) are skipped.",
+)
